@@ -18,6 +18,10 @@ import (
 var loaderState configuration.Configuration
 var loaderEntries int
 
+// loaderWindow (Rpm > 0): the configuration file also sets both rolling-window sizes, the way a user sets them; what the
+// loader made of them is left in loaderWindowLoaded for the caller to put into force.
+var loaderWindow, loaderWindowLoaded struct{ Rpm, Temp int }
+
 func fanConfigViaLoader(ctx *Ctx, cfg configuration.FanConfig) (configuration.FanConfig, error) {
 	dir := ctx.Path(uniqueId("vialoader"))
 	_ = os.MkdirAll(dir, 0755)
@@ -25,6 +29,9 @@ func fanConfigViaLoader(ctx *Ctx, cfg configuration.FanConfig) (configuration.Fa
 	sf := filepath.Join(dir, "sensor")
 	_ = os.WriteFile(sf, []byte("40000\n"), 0644)
 	var sb strings.Builder
+	if loaderWindow.Rpm > 0 {
+		fmt.Fprintf(&sb, "tempRollingWindowSize: %d\nrpmRollingWindowSize: %d\n", loaderWindow.Temp, loaderWindow.Rpm)
+	}
 	fmt.Fprintf(&sb, "dbPath: %s/fan2go.db\nsensors:\n  - id: vl-s\n    file:\n      path: %s\ncurves:\n  - id: %s\n    linear:\n      sensor: vl-s\n      min: 40\n      max: 80\nfans:\n  - id: %s\n    curve: %s\n", dir, sf, cfg.Curve, cfg.ID, cfg.Curve)
 	if cfg.NeverStop {
 		sb.WriteString("    neverStop: true\n")
@@ -112,6 +119,7 @@ func fanConfigViaLoader(ctx *Ctx, cfg configuration.FanConfig) (configuration.Fa
 	})
 	// the harness keeps its own global settings (polling rates, windows ...): only the fan entry is taken
 	loaderState = configuration.CurrentConfig
+	loaderWindowLoaded.Rpm, loaderWindowLoaded.Temp = configuration.CurrentConfig.RpmRollingWindowSize, configuration.CurrentConfig.TempRollingWindowSize
 	configuration.CurrentConfig = saved
 	if panicked {
 		return out, fmt.Errorf("loader panicked: %s", firstLine(msg))
